@@ -58,6 +58,22 @@ fn answer(tag: &str, method: &str, log: &Log, req: Request<Msg>) -> Result<Respo
 #[anemo::async_trait]
 impl gen::root_greeter::greeter_server::Greeter for Impl {
     async fn say_hello(&self, r: Request<Msg>) -> Result<Response<Msg>, Status> {
+        // "relay:<hex peer id>:<what>": ask that peer (a typed call through the network this request
+        // came in on) and hand whatever comes back - message or error status - to our own caller
+        if let Some(rest) = r.inner().s.strip_prefix("relay:") {
+            let (hex_id, what) = rest.split_once(':').unwrap_or((rest, ""));
+            let mut id = [0u8; 32];
+            if hex::decode_to_slice(hex_id, &mut id).is_ok() {
+                if let Some(net) = r.extensions().get::<anemo::NetworkRef>().and_then(|n| n.upgrade()) {
+                    if let Some(peer) = net.peer(anemo::PeerId(id)) {
+                        self.log.lock().unwrap().push(format!("{}.relay", self.tag));
+                        let mut client = gen::root_greeter::greeter_client::GreeterClient::new(peer);
+                        return client.say_hello(Msg { a: r.inner().a, s: what.to_owned() }).await;
+                    }
+                }
+            }
+            return Err(Status::internal("relay target not connected"));
+        }
         answer(self.tag, "say_hello", &self.log, r)
     }
     async fn say(&self, r: Request<Msg>) -> Result<Response<Msg>, Status> {
@@ -564,5 +580,100 @@ pub fn deadline(_a: &Args) -> i32 {
     }
     mismatches.truncate(6);
     print_summary(&json!({"evaluations": evaluations, "rows": routes.len() * 4, "mismatches": mismatches}));
+    0
+}
+
+
+/// A failure (or an answer) that is passed along: A asks B, B's handler asks C through the same
+/// network and returns what it got. Whatever travels, the identity A's typed client attributes the
+/// status / the response to is B's - the authenticated other end of A's connection - and the
+/// response B sends carries the handler's headers and the status message, nothing else.
+pub fn relay(_a: &Args) -> i32 {
+    use crate::scenarios::conn::{node_cfg, Opts};
+    let out = crate::sim::run_sim(1, |mut sim| async move {
+        let o = Opts { nodes: 3, ops: 0, faults: false, restarts: false, known: false, limit: None, idle_ms: 30_000, keepalive_ms: Some(5_000), hetero: false };
+        let keys = crate::sim::sorted_keys(3, &mut sim.rng);
+        crate::sim::WITH_GENERATED.with(|c| c.set(true));
+        for k in keys {
+            sim.add_node(node_cfg(k, &o)).map_err(|e| e.to_string())?;
+        }
+        crate::sim::WITH_GENERATED.with(|c| c.set(false));
+        let (a, b, c) = (0usize, 1usize, 2usize);
+        sim.connect(a, sim.addr(b), Some(sim.peer_id(b))).await.map_err(|e| format!("setup: {e}"))?;
+        sim.connect(b, sim.addr(c), Some(sim.peer_id(c))).await.map_err(|e| format!("setup: {e}"))?;
+        let (pb, pc) = (sim.peer_id(b), sim.peer_id(c));
+        let hex_c = hex::encode(pc.0);
+        let mut mismatches: Vec<Value> = Vec::new();
+        let mut evaluations = 0u64;
+        let peer = sim.net(a).peer(pb).ok_or("no peer")?;
+        let mut client = gen::root_greeter::greeter_client::GreeterClient::new(peer);
+        for what in ["fail", "fail-bare", "hi"] {
+            evaluations += 1;
+            let r = client.say_hello(Msg { a: 7, s: format!("relay:{hex_c}:{what}") }).await;
+            match r {
+                Ok(resp) => {
+                    if what != "hi" {
+                        mismatches.push(json!({"what": format!("relayed {what}: the caller got a success")}));
+                    } else if resp.peer_id() != Some(&pb) {
+                        mismatches.push(json!({"what": "relayed answer: the response is not attributed to the peer that was asked (the authenticated end of the connection)"}));
+                    } else if resp.inner().a != 8 || !resp.inner().s.ends_with(":hi") {
+                        mismatches.push(json!({"what": format!("relayed answer garbled: {:?}", resp.inner().s)}));
+                    }
+                }
+                Err(st) => {
+                    if what == "hi" {
+                        mismatches.push(json!({"what": format!("relayed call failed: {st:?}")}));
+                        continue;
+                    }
+                    if st.peer_id() != Some(&pb) {
+                        let who = if st.peer_id() == Some(&pc) { "the third party named inside the message".to_string() } else { format!("{:?}", st.peer_id()) };
+                        mismatches.push(json!({"what": format!("relayed {what}: the error status is attributed to {who}, not to the peer that was asked (the authenticated end of the connection)")}));
+                    }
+                    if st.status() != StatusCode::BadRequest || st.headers().get("why").map(|s| s.as_str()) != Some("because") {
+                        mismatches.push(json!({"what": format!("relayed {what}: code / headers of the status changed on the way: {st:?}")}));
+                    }
+                }
+            }
+            // the same exchange seen raw: exactly the handler's headers (+ the message) travel
+            evaluations += 1;
+            let body = Bytes::from(bincode::serialize(&Msg { a: 7, s: format!("relay:{hex_c}:{what}") }).unwrap());
+            match sim.net(a).rpc(pb, Request::new(body).with_route("/Greeter/SayHello")).await {
+                Ok(resp) => {
+                    let mut names: Vec<&str> = resp.headers().keys().map(|k| k.as_str()).collect();
+                    names.sort();
+                    let want: Vec<&str> = match what {
+                        "fail" => vec!["status-message", "why"],
+                        "fail-bare" => vec!["retry-after-ms", "why"],
+                        _ => vec!["content-type", "extra"],
+                    };
+                    if names != want {
+                        mismatches.push(json!({"what": format!("relayed {what}: the response carries headers {names:?}, the handler's status has {want:?}")}));
+                    }
+                    if resp.peer_id() != Some(&pb) {
+                        mismatches.push(json!({"what": "raw response not attributed to the connection's peer"}));
+                    }
+                }
+                Err(e) => mismatches.push(json!({"what": format!("raw relayed call failed: {e}")})),
+            }
+        }
+        for i in 0..3 {
+            crate::scenarios::conn::shutdown(&mut sim, i).await;
+        }
+        Ok(json!({"evaluations": evaluations, "mismatches": mismatches}))
+    });
+    let mut mismatches: Vec<Value> = Vec::new();
+    let mut evaluations = 0u64;
+    match out.result {
+        Ok(v) => {
+            evaluations = v["evaluations"].as_u64().unwrap_or(0);
+            mismatches = v["mismatches"].as_array().cloned().unwrap_or_default();
+        }
+        Err(e) => mismatches.push(json!({"what": format!("relay scenario failed: {e}")})),
+    }
+    for p in out.panics {
+        mismatches.push(json!({"what": format!("panic: {p}")}));
+    }
+    mismatches.truncate(6);
+    print_summary(&json!({"evaluations": evaluations, "rows": 3, "mismatches": mismatches}));
     0
 }
